@@ -157,6 +157,8 @@ def is_unset_test(c, place=None):
         cell = c['a']
     elif c['kind'] == 'variant' and c.get('variants') == ['None']:
         cell = norm(c['a'])
+        if cell[0] == 'call' and facts.short(cell[1]) == 'checked_sub' and len(cell[2]) == 2 and facts.is_const(cell[2][1], 1):
+            cell = norm(cell[2][0])      # `x.checked_sub(1)` is None exactly when x == 0 (sentinel decoded on the fly)
     else:
         return None
     if place is not None and cell != norm(place):
@@ -169,6 +171,8 @@ def is_set_test(c, place=None):
         cell = c['a']
     elif c['kind'] == 'variant' and c.get('variants') == ['Some']:
         cell = norm(c['a'])
+        if cell[0] == 'call' and facts.short(cell[1]) == 'checked_sub' and len(cell[2]) == 2 and facts.is_const(cell[2][1], 1):
+            cell = norm(cell[2][0])
     else:
         return None
     if place is not None and cell != norm(place):
